@@ -154,4 +154,50 @@ macro_rules! def_row_check {
     };
 }
 def_row_check!(row_check_k1, 1);
+
+macro_rules! def_cie_fail_check {
+    ($fname:ident, $k:expr) => {
+        /// Skeletons whose CIE initial instructions are statically invalid (DW_CFA_restore* there, restore_state on an
+        /// empty stack, a third remember_state, an unknown opcode): `rows()` itself must fail with the model's error.
+        /// The table is not evaluated on the (infeasible) success arm: the symbolic executor would otherwise walk it
+        /// with an unconstrained context.
+        pub fn $fname(buf: &[u8], fde_off: usize, asz: usize, ca: u64, da: i64, ra: u8, init_loc: u64, range: u64, r: &Run, aarch64: bool, twin: bool) {
+            const K: usize = $k;
+            let want = r.finish(init_loc, range);
+            let mut section = DebugFrame::from(FixLeb::<LittleEndian, K>::new(buf, LittleEndian));
+            section.set_address_size(asz as u8);
+            if aarch64 {
+                section.set_vendor(Vendor::AArch64);
+            }
+            let bases = BaseAddresses::default();
+            let Ok(fde_entry) = section.fde_from_offset(&bases, DebugFrameOffset(fde_off), DebugFrame::cie_from_offset) else {
+                assert!(false, "well-formed CIE/FDE rejected");
+                return;
+            };
+            assert!(
+                fde_entry.cie().code_alignment_factor() == ca
+                    && fde_entry.cie().data_alignment_factor() == da
+                    && fde_entry.cie().return_address_register() == Register(ra as u16)
+                    && fde_entry.initial_address() == init_loc
+                    && fde_entry.len() == range,
+                "decoded CIE/FDE header fields"
+            );
+            let mut ctx: UnwindContext<usize, Store3> = UnwindContext::new_in();
+            let got = match fde_entry.rows(&section, &bases, &mut ctx) {
+                Err(e) => Some(e),
+                Ok(_) => None,
+            };
+            match (got, want) {
+                (Some(e), Err(me)) => assert!(err_same(e, me) && !twin, "wrong error kind"),
+                (_, Err(MErr::OutOfModel)) => {}
+                (None, Err(_)) => assert!(false, "a row table was produced where the CIE's initial instructions are invalid"),
+                (_, Ok(_)) => assert!(false, "skeleton classified as statically invalid but the model accepts it"),
+            }
+            kani::cover!(got.is_some());
+        }
+    };
+}
+def_cie_fail_check!(cie_fail_check_k1, 1);
+def_cie_fail_check!(cie_fail_check_k2, 2);
+
 def_row_check!(row_check_k2, 2);
